@@ -78,7 +78,7 @@ def norm_snap(snap: dict) -> dict:
     return out
 
 
-def execute(scn: dict, prop: str, aspects, on_step=None, send_strict=(1,)) -> RunResult:
+def execute(scn: dict, prop: str, aspects, on_step=None, send_strict=(1,), keep=None) -> RunResult:
     """Run a scenario; report discrepancies whose aspect starts with one of `aspects`."""
     res = RunResult()
     cfg = scn.get("cfg", {})
@@ -143,7 +143,7 @@ def execute(scn: dict, prop: str, aspects, on_step=None, send_strict=(1,)) -> Ru
                         disc.append(("outcome", f"unhandled-in-loop:{u['exc']}", str(u)))
                     w.loop.unhandled.clear()
                 for aspect, site, detail in disc:
-                    if any(aspect.startswith(a) for a in aspects):
+                    if any(aspect.startswith(a) for a in aspects) and (keep is None or keep(aspect, site)):
                         res.violate(prop, aspect, site, f"op#{i} {op!r}: {detail}")
                 res.states.add(model.state_key())
                 if on_step is not None:
